@@ -1,6 +1,6 @@
 (* Dispatch.v — the single entry point the extracted driver calls:
    component number and flat input -> flat output. *)
-From RaftModel Require Import Base LogCache Config Commitment Compaction Node NodeCodec Candidate Lease Leader LeaderCodec Pipeline LoopTable Futures Notify FileSnap Cluster Replicate Converge ClusterLog.
+From RaftModel Require Import Base LogCache Config Commitment Compaction Node NodeCodec Candidate Lease Leader LeaderCodec Pipeline LoopTable Futures Notify FileSnap Cluster Replicate Converge ClusterLog ClusterCommit.
 Open Scope N_scope.
 
 (* the table generated from the Go source on this run *)
@@ -19,6 +19,7 @@ Definition run_case (comp : N) (inp : list N) : list N :=
   | 8 => run_leaderseq inp
   | 1 => run_cluster inp
   | 101 => run_clusterlog inp
+  | 102 => run_clustercommit inp
   | 12 => run_replseq inp
   | 1201 => run_converge inp
   | 15 => run_fsprogram inp
